@@ -136,6 +136,16 @@ func floatEnv() *Env {
 	return e
 }
 
+// wrapEnv: integer members whose values coincide with other literals / members only after narrowing or a sign change
+// (148 = 404 mod 256, 4464 = 70000 mod 65536, 44 = 300 mod 256 = 65580 mod 65536)
+func wrapEnv() *Env {
+	e := baseEnv()
+	e.U8, e.U16, e.I8, e.I16, e.I, e.U, e.I32, e.I64, e.U32, e.U64 = 148, 4464, 44, 44, 300, 200, 0, 1<<32, 0, 1<<32
+	e.AI = []int{300, 404, 556, 660} // 300 = 556 = 44 and 404 = 660 = 148 modulo 256; small enough for `1..#` loops in the model
+	e.F64 = 2.5
+	return e
+}
+
 func randomEnv(rng *rand.Rand) *Env {
 	pickS := func() string { return strPool[rng.Intn(len(strPool))] }
 	smallInt := func() int { return rng.Intn(9) - 2 }
